@@ -97,10 +97,11 @@ P("C16", [("K8", None), ("K1", r"^k1_(c_bv_shifted_in_from|c_db_shifted_in_from|
   "the 'exactly when' over whole values, the instantiate/canonicalize round trip, inversion. Assumed: binary_search, Vec::insert as compiled by Kani.",
   "contract-based verification with Kani harness contracts compiled inside chalk-solve (tracing replaced by a no-op stand-in), bounded")
 
-P("C09", [("K11", None), ("V3", None)],
+P("C09", [("K11", None), ("V3", None), ("V17", None)],
   "model_checking",
   "Partial (one invariant + the stopping rule): Kani proves on the real recursive-solver Stack that its depth can never exceed the configured overflow_depth (symbolic): a push below "
-  "the limit adds exactly one entry, a push at the limit aborts without adding one; Verus proves reached_fixed_point stops exactly when the answer repeats or is ambiguous. "
+  "the limit adds exactly one entry, a push at the limit aborts without adding one; Verus proves reached_fixed_point stops exactly when the answer repeats or is ambiguous, and that the two size guards do what bounds the work: an oversize "
+  "subgoal is never tabled by the SLG engine (abstract_positive_literal returns None) and an oversize obligation is never queued by the recursive solver (push_obligation marks cannot_prove). "
   "BOUNDED in the number of entries (4/6). Termination proper is not claimed: neither tool proves it here.",
   "Not reached: termination of the SLG engine (subgoal abstraction, truncation), of Fulfill::fulfill and of the fixed-point loop itself; 'without panicking' is not claimed (the overflow push panics by design).",
   "contract-based verification with Kani harness contracts (bounded) + Verus on extracted text")
